@@ -2,10 +2,12 @@ package main
 
 import (
 	"bytes"
+	"fmt"
 	"encoding/json"
 	"reflect"
 
 	"github.com/tyler-sommer/stick"
+	"github.com/tyler-sommer/stick/twig"
 )
 
 // templates that the snippets of the spelling families refer to
@@ -29,6 +31,14 @@ func stripPos(n *PNode) interface{} {
 	return []interface{}{n.K, n.Op, n.Name, n.Txt, string(d), n.B != nil && *n.B, n.Neg != nil && *n.Neg, kids}
 }
 
+func spellCtxHTML() map[string]stick.Value {
+	c := spellCtx()
+	c["d"] = "<&'\">"
+	c["x"] = "<b>"
+	c["v"] = "a b"
+	return c
+}
+
 func spellCtx() map[string]stick.Value {
 	return map[string]stick.Value{
 		"a": 2.0, "b": 3.0, "c": 1.0, "d": "-", "s": []stick.Value{1.0, 0.0, 2.0}, "v": "V", "x": "X",
@@ -36,6 +46,7 @@ func spellCtx() map[string]stick.Value {
 }
 
 type spellSide struct {
+	Inline  []string    `json:"inline"` // rendered as inline source (string loader) by a Twig environment, bare and with type suffixes
 	ParseOK bool        `json:"parse_ok"`
 	Err     string      `json:"err,omitempty"`
 	Shape   interface{} `json:"-"`
@@ -66,6 +77,13 @@ func spellRun(src []byte) (spellSide, []map[string]interface{}) {
 	xerr := env.Execute("t", rec, spellCtx())
 	side.ExecOK = xerr == nil
 	side.Out = Bytes(rec.out)
+	// the same source as an INLINE template of an auto-escaping environment (the template's name is its source), bare and
+	// followed by text that reads like a file extension
+	for _, suffix := range []string{"", ".txt", ".js", " .css"} {
+		var buf bytes.Buffer
+		ierr := twig.New(nil).Execute(string(src)+suffix, &buf, spellCtxHTML())
+		side.Inline = append(side.Inline, fmt.Sprintf("%v|%s", ierr == nil, buf.String()))
+	}
 	var toks []map[string]interface{}
 	raw, _ := json.Marshal(map[string]interface{}{"src": Bytes(src)})
 	if lx, _ := handlers["lex"](raw); lx != nil {
@@ -107,6 +125,7 @@ func init() {
 			"tokens_equal": ta == nil || reflect.DeepEqual(ta, tb),
 			"hooks":        ta != nil,
 			"shape_equal":  reflect.DeepEqual(a.Shape, b.Shape),
+			"inline_equal": reflect.DeepEqual(a.Inline, b.Inline),
 		}
 		return obs, nil
 	}
